@@ -1,4 +1,5 @@
 import TypifyModel.Proofs.C05
+import TypifyModel.Proofs.C05Enc
 open TypifyModel.C05
 #print axioms charCount_eq_length
 #print axioms string_constraints_enforced
@@ -10,3 +11,6 @@ open TypifyModel.C05
 #print axioms scalar_type_enforced
 #print axioms external_tag_enforced
 #print axioms no_backdoor
+#print axioms TypifyModel.C05E.enc_sound
+#print axioms TypifyModel.C05E.encD_sound
+#print axioms TypifyModel.C05E.struct_sound
